@@ -1066,7 +1066,7 @@ class _Out:
             self.w(" ")
 
 
-def render(op, layout=0):
+def render(op, layout=0, frags_first=False):
     """Render the OpSpec to text.  layout 0 = single line, 1 = indented,
     2 = indented with commas and a leading comment, 3 = indented with CRLF
     line endings (one line terminator per the specification)."""
@@ -1124,15 +1124,25 @@ def render(op, layout=0):
                 vs.append(v)
             head += "(%s)" % ", ".join(vs)
         head += " "
+    def fragments(trailing):
+        for name, (cond, sels) in op.fragments.items():
+            if not trailing:
+                o.w(o.newline if o.multiline else " ")
+            o.w("fragment %s on %s " % (name, cond))
+            selset(sels)
+            if trailing:
+                o.w(o.newline if o.multiline else " ")
+
     if op.extra_op and op.extra_first:
         o.w("query Other { __typename }")
         o.w(o.newline if o.multiline else " ")
+    if frags_first:
+        # fragment definitions may precede the operation that uses them
+        fragments(True)
     o.w(head)
     selset(op.sel)
-    for name, (cond, sels) in op.fragments.items():
-        o.w(o.newline if o.multiline else " ")
-        o.w("fragment %s on %s " % (name, cond))
-        selset(sels)
+    if not frags_first:
+        fragments(False)
     if op.extra_op and not op.extra_first:
         o.w(o.newline if o.multiline else " ")
         o.w("query Other { __typename }")
